@@ -157,6 +157,10 @@ pub enum Edge {
     /// range whose bound computation overflows (must panic before anything changes)
     DrainOverflow(Api, OverflowRange),
     SpliceOverflow(Api, OverflowRange),
+    /// std iterator adaptors (nth, nth_back, skip, step_by, rev, take, last, count, ...) applied to the library's iterators
+    DrainAdapt { api: Api, a: u8, b: u8, op: u8 },
+    SpliceAdapt { api: Api, a: u8, b: u8, op: u8, rn: u8 },
+    IterAdapt { api: Api, kind: IterKind, op: u8 },
     /// iterator protocol (C14): kind, sub-range only for drain/splice, pattern, clone point
     IterProto { api: Api, kind: IterKind, pat: Pat, clone_at: u8 },
     Cap(Api, CapCall, u8),
@@ -186,7 +190,7 @@ impl Edge {
             Edge::Push(..) => "push", Edge::Insert(..) => "insert", Edge::Pop(..) => "pop", Edge::Remove(..) => "remove",
             Edge::SwapRemove(..) => "swap_remove", Edge::Clear(..) => "clear", Edge::Get(..) => "get", Edge::IterAll(..) => "iter",
             Edge::Drain { .. } => "drain", Edge::Splice { .. } => "splice", Edge::DrainOverflow(..) => "drain-overflow",
-            Edge::SpliceOverflow(..) => "splice-overflow", Edge::IterProto { .. } => "iter-proto", Edge::Cap(..) => "capacity",
+            Edge::SpliceOverflow(..) => "splice-overflow", Edge::IterProto { .. } => "iter-proto", Edge::DrainAdapt { .. } => "drain-adaptor", Edge::SpliceAdapt { .. } => "splice-adaptor", Edge::IterAdapt { .. } => "iter-adaptor", Edge::Cap(..) => "capacity",
             Edge::CloneVec { .. } => "clone", Edge::CloneEmpty { .. } => "clone_empty", Edge::CloneEmptyIn { .. } => "clone_empty_in",
             Edge::ForgetHandle { .. } => "forget-handle", Edge::ForgetRange { .. } => "forget-range",
             Edge::WrongPush(..) => "wrong-push", Edge::WrongInsert(..) => "wrong-insert", Edge::WrongSpliceItem { .. } => "wrong-splice",
@@ -200,7 +204,7 @@ impl Edge {
             Edge::Push(a, _) | Edge::Insert(a, _, _) | Edge::Pop(a, _) | Edge::Remove(a, _, _) | Edge::SwapRemove(a, _, _)
             | Edge::Clear(a) | Edge::Get(a, _, _) | Edge::IterAll(a, _) | Edge::DrainOverflow(a, _) | Edge::SpliceOverflow(a, _)
             | Edge::Cap(a, _, _) => *a,
-            Edge::Drain { api, .. } | Edge::Splice { api, .. } | Edge::IterProto { api, .. } => *api,
+            Edge::Drain { api, .. } | Edge::Splice { api, .. } | Edge::IterProto { api, .. } | Edge::DrainAdapt { api, .. } | Edge::SpliceAdapt { api, .. } | Edge::IterAdapt { api, .. } => *api,
             _ => Api::Erased,
         };
         match a { Api::Erased => "erased", Api::Typed => "typed" }
